@@ -131,19 +131,23 @@ func (r *recTB) Fail()          { r.failed = true }
 func (r *recTB) Failed() bool   { return r.failed }
 
 type ReplayFile struct {
-	Property  string    `json:"property"`
-	Class     string    `json:"class"`
-	Detail    string    `json:"detail"`
-	Features  []string  `json:"features,omitempty"`
-	Seed      uint64    `json:"seed"`
-	RapidSeed uint64    `json:"rapid_seed"`
-	Engine    string    `json:"engine"`
-	Tool      string    `json:"tool"`
-	Input     *Input    `json:"input,omitempty"`
-	Locker    *LockerIn `json:"locker_input,omitempty"`
-	Diff      *DiffIn   `json:"diff_input,omitempty"`
-	Digest    string    `json:"expected_event_log_digest"`
-	Trace     []string  `json:"trace"`
+	Property  string   `json:"property"`
+	Class     string   `json:"class"`
+	Detail    string   `json:"detail"`
+	Features  []string `json:"features,omitempty"`
+	Seed      uint64   `json:"seed"`
+	RapidSeed uint64   `json:"rapid_seed"`
+	Engine    string   `json:"engine"`
+	Tool      string   `json:"tool"`
+	// Binary: "fine" when the run was made by the binary built from the instrumented copy of the
+	// sources (its mutex operations are scheduling points, so even a run that enables no
+	// statement-level site may differ from the plain binary's); the driver replays with the same.
+	Binary string    `json:"binary,omitempty"`
+	Input  *Input    `json:"input,omitempty"`
+	Locker *LockerIn `json:"locker_input,omitempty"`
+	Diff   *DiffIn   `json:"diff_input,omitempty"`
+	Digest string    `json:"expected_event_log_digest"`
+	Trace  []string  `json:"trace"`
 }
 
 // engine abstracts over the three simulations (ledger, locker, differential preview).
@@ -277,6 +281,22 @@ func sampleOf(in *Input, res *Result) any {
 
 func TestSim(t *testing.T) {
 	loadFineSites(*fFine)
+	if *fMode == "digest" || *fDigest {
+		// determinism self-test: a run that never ends (see runEngine) ends the process with a
+		// status of its own instead of keeping the driver waiting
+		go func() {
+			last, since := int64(-1), time.Now()
+			for {
+				time.Sleep(time.Second)
+				if p := runProgress.Load(); p != last {
+					last, since = p, time.Now()
+				} else if time.Since(since) > 20*time.Second {
+					fmt.Println("HUNG: a simulated run made no progress for 20 s")
+					os.Exit(3)
+				}
+			}
+		}()
+	}
 	switch *fMode {
 	case "":
 		t.Skip("driven by /verif/check")
@@ -511,12 +531,19 @@ func runEngine(t *testing.T, eng *engine) {
 		seed uint64
 	}
 	shrinkSig := ""
-	if len(fineSiteList) > 0 {
-		// Fine-grained mode only: a statement-level scheduling point may sit in a callback that a
-		// library (not rewritten) invokes while holding its own mutex; a task parked there makes the
-		// next task block on that mutex, which synctest.Wait cannot see through, and the run hangs.
-		// Such a run says nothing about the property: the worker writes what it has and ends, and
-		// the driver starts a fresh one on the next batch.
+	{
+		// A run hangs when a task parks at a scheduling point while it holds a mutex the next task
+		// blocks on: synctest.Wait cannot see through a sync.Mutex. The unchanged engine never does
+		// that at a hand-placed point (its one such mutex has a hook), but a statement-level point of
+		// the fine-grained mode may sit in a callback that a library invokes under its own mutex, and
+		// a changed engine may hold a mutex across a store call. Such a run says nothing about the
+		// property: the worker writes what it has and ends, the driver starts a fresh one on the next
+		// batch. Hangs of the fine-grained binary are expected and only counted; hangs of the plain
+		// binary make the driver end with harness trouble unless a violation is reported anyway.
+		key := "base.hung-run-abandoned"
+		if len(fineSiteList) > 0 {
+			key = "fine.hung-run-abandoned"
+		}
 		go func() {
 			last, since := int64(-1), time.Now()
 			for {
@@ -524,7 +551,7 @@ func runEngine(t *testing.T, eng *engine) {
 				if p := runProgress.Load(); p != last {
 					last, since = p, time.Now()
 				} else if time.Since(since) > 20*time.Second {
-					out.Counters["fine.hung-run-abandoned"]++
+					out.Counters[key]++
 					out.NextBatch = batch + 1
 					out.WallS = time.Since(start).Seconds()
 					if *fOut != "" {
@@ -687,6 +714,9 @@ func writeReplay(t *testing.T, eng *engine, in any, v Violation, rseed uint64, k
 	res := eng.run(t, in, true)
 	rf := &ReplayFile{Property: v.Prop, Class: v.Class, Detail: v.Detail, Features: v.Features, Seed: *fSeed, RapidSeed: rseed,
 		Engine: eng.name, Tool: "verifsim/synctest go1.26.8 rapid v1.3.0", Digest: res.Digest, Trace: res.Lines}
+	if len(fineSiteList) > 0 {
+		rf.Binary = "fine"
+	}
 	eng.fill(rf, in)
 	for _, x := range res.Violations {
 		if x.Prop == v.Prop && x.Class == v.Class {
